@@ -1010,6 +1010,14 @@ def _run_case(ctx, L, B, case):
                     host.stop()
                 except Exception:  # noqa: BLE001
                     pass
+    elif k == 'both-framing-headers':
+        payload = unhx(case['payload'])
+        framed = b'%x\r\n' % len(payload) + payload + b'\r\n0\r\n\r\n'
+        both = [('Transfer-Encoding', 'chunked'), ('Content-Length', str(case['content_length']))]
+        comp = EchoComponent()
+        r = WD.call(run_server, L, raw_post(both if case.get('order') else both[::-1], framed), list(L.CH.available_encodings), 0, comp)
+        if r[0] != 'ok' or comp.received != [payload] or len(parse_responses(r[1])) != 1:
+            ctx.fail('framing:request-behind-invalid-framing-executed', f'{r[0]}: component received {len(comp.received)} requests', case)
     elif k == 'connection-framing':
         comp = EchoComponent()
         inner = raw_post([('Content-Length', '8')], b'<inner/>')
@@ -1455,6 +1463,28 @@ def run_connection_framing(ctx, L):
                 ctx.fail('framing:request-behind-invalid-framing-executed', f'request with {hdrs} (unreadable body) followed by the bytes of a '
                          f'complete request: answers {codes}, component received {[len(x) if x is not None else None for x in comp.received]} - '
                          'the unread bytes were taken for a further request', case)
+    # both framing headers: Transfer-Encoding wins (RFC 7230 3.3.3) - the peer's message is the chunked payload, all of it, and nothing
+    # of it is left in the stream as a "next request"; the chunk data is itself a complete request
+    for payload in (inner, b'<soap/>', inner * 2):
+        size_line = b'%x\r\n' % len(payload)
+        framed = size_line + payload + b'\r\n0\r\n\r\n'
+        for cl in (len(size_line), len(size_line) - 2, len(payload), len(framed), 0, 1):
+            for order in (0, 1):
+                both = [('Transfer-Encoding', 'chunked'), ('Content-Length', str(cl))]
+                hdrs = both if order else both[::-1]
+                comp = EchoComponent()
+                case = {'kind': 'both-framing-headers', 'content_length': cl, 'payload': hx(payload), 'order': order}
+                r = WD.call(run_server, L, raw_post(hdrs, framed), list(L.CH.available_encodings), 0, comp)
+                ctx.case({'k': 'bothframing', **case}, nontrivial=True)
+                if r[0] != 'ok':
+                    ctx.fail('do_POST:' + ('hang' if r[0] == 'hang' else 'exception'), f'{hdrs}: {r!r:.160}', case)
+                    continue
+                resps = parse_responses(r[1])
+                ctx.count('both-framing-headers:' + '+'.join(str(x[0]) if x else 'None' for x in resps))
+                if comp.received != [payload] or len(resps) != 1:
+                    ctx.fail('framing:request-behind-invalid-framing-executed', f'Transfer-Encoding: chunked together with Content-Length: {cl}: the '
+                             f'component received {[len(x) if x is not None else None for x in comp.received]} bytes in {len(comp.received)} '
+                             f'requests ({len(resps)} answers) instead of the one chunked payload of {len(payload)} bytes', case)
     from props import c13
     B13 = c13.Batch(ctx)
     c13.injection_conn(ctx, L, B13, c13.exception_classes())
